@@ -51,7 +51,8 @@ class C12(core.Prop):
         'eval: random decorated-operator pipelines (incl. label operators, train-only and apply-only actors) evaluated by '
         'the real TrainTestScore with CrossVal (2-5 folds) or HoldOut and a symbolic splitter / metric / reducer; stack: '
         'FullStack with 1-3 base models, 2-4 folds, an optional scope inside the ensemble composition and optional '
-        'operators in front of it, train mode and (separately expanded, positionally bound) apply mode. The symbolic '
+        'operators in front of it, train mode and (separately expanded, positionally bound) apply mode; cvfolds: the real '
+        'PandasCVFolds actor over arbitrary (train, test) index pairs incl. non-complementary ones and relabelled frames. The symbolic '
         'splitter makes every fold part and the fitted split state visible in the terms. Non-trivial = a stateful '
         'actor in the evaluated/ensembled pipeline.'
     )
@@ -82,6 +83,19 @@ class C12(core.Prop):
             if out[-1]['scope'] is None:
                 # without explicit parentheses `pre >> FullStack(...)` makes `pre` the ensemble's scope
                 out[-1]['scope'], out[-1]['pre'] = out[-1]['pre'], None
+        for _ in range(n // 2):
+            rows = rng.randint(3, 9)
+            pairs = []
+            for _ in range(rng.randint(2, 4)):
+                test = sorted(rng.sample(range(rows), rng.randint(1, max(1, rows // 3))))
+                pool = [i for i in range(rows) if i not in test]
+                # the train part is NOT always the complement of the test part (time-series gaps, explicit train sizes)
+                train = sorted(rng.sample(pool, rng.randint(1, len(pool)))) if rng.random() < 0.6 else pool
+                pairs.append([train, test])
+            case = {'t': 'cvfolds', 'rows': rows, 'pairs': pairs, 'folds': len(pairs)}
+            if rng.random() < 0.4:
+                case['index'] = rng.sample(range(100, 100 + rows), rows)
+            out.append(case)
         return out
 
     def run_impl(self, cases):
@@ -93,6 +107,8 @@ class C12(core.Prop):
         bad = '(C12.CEval (Names 0 0 0 0 0 0) 0%nat 0%nat (EOp (OpSpec None TNo None)) 1%nat (TProj 9%nat TNone))'
         if 'error' in obs:
             return bad
+        if case['t'] == 'cvfolds':
+            return None  # the concrete pandas splitter is checked on the implementation only
         if case['t'] == 'eval':
             if len(obs['value']) != 1:
                 return bad
@@ -111,6 +127,12 @@ class C12(core.Prop):
     def oracle(self, case, obs):
         if 'error' in obs:
             return f"failed: {obs['error']}"
+        if case['t'] == 'cvfolds':
+            want = [part for a, b in case['pairs'] for part in (a, b)]
+            if obs['features'] != want or obs['labels'] != want:
+                return (f"the index-synchronised splitter delivered features {obs['features']} / labels {obs['labels']} for the "
+                        f"fold indices {case['pairs']} (expected ports 2i = train part, 2i+1 = held-out part: {want})")
+            return None
         sl = ['app', 'slice', 0, None, [['app', 'srcT', 0, None, []]]]
         XA, X, Y = ['app', 'srcA', 0, None, []], ['proj', 0, sl], ['proj', 1, sl]
         if case['t'] == 'stack' and case.get('pre'):
@@ -150,6 +172,8 @@ class C12(core.Prop):
         return None
 
     def nontrivial(self, case, obs):
+        if case['t'] == 'cvfolds':
+            return any(sorted(a + b) != list(range(case['rows'])) for a, b in case['pairs'])
         trees = [case.get('expr'), case.get('scope'), case.get('pre')] + list(case.get('bases', []))
         return any(a and a != 'same' and a[2] for t in trees if t for o in flat(t) for a in (o.get('apply'), o.get('train'), o.get('label')))
 
